@@ -116,6 +116,30 @@ Theorem C04_rendering_masked_cmd2 : forall k K d, forallb key_char k = true -> c
 Proof. exact rendering_masked_cmd2. Qed.
 Print Assumptions C04_rendering_masked_cmd2.
 
+(* the two renderings whose pattern backtracks through ['"][^'"]*key: existence of a match by completeness of the
+   matcher, uniqueness of what it reads by language soundness + counting quotes (Proofs/C04_Quote.v, C11_Regex.v) *)
+Theorem C04_rendering_masked_json_prefix : forall k K d, forallb key_char k = true -> casing_of k K -> forallb ascii_digit d = true ->
+  forall q1 pfx q2 w1 w2 u q3 q4 v mask,
+  is_quote q1 = true -> is_quote q2 = true -> is_quote q3 = true -> is_quote q4 = true ->
+  forallb quoted_char pfx = true -> forallb is_space w1 = true -> forallb is_space w2 = true -> opt_u u ->
+  forallb quoted_char v = true ->
+  re_sub (gen_tp2_7 k) (t2 mask) (q1 :: pfx ++ K ++ d ++ q2 :: w1 ++ 58 :: w2 ++ u ++ q3 :: v ++ [q4])
+  = q1 :: pfx ++ K ++ d ++ q2 :: w1 ++ 58 :: w2 ++ u ++ q3 :: mask ++ [q4].
+Proof. exact rendering_masked_json_prefix. Qed.
+Print Assumptions C04_rendering_masked_json_prefix.
+
+Theorem C04_rendering_masked_cmd1 : forall k K d, forallb key_char k = true -> casing_of k K -> forallb ascii_digit d = true ->
+  forall q1 pfx q2 w1 w2 dash fl w3 w4 u q3 q4 v mask,
+  is_quote q1 = true -> is_quote q2 = true -> is_quote q3 = true -> is_quote q4 = true ->
+  forallb quoted_char pfx = true -> forallb is_space w1 = true -> forallb is_space w2 = true ->
+  (dash = [] \/ dash = [45]) -> all_in cs_flag fl = true -> (1 <= length fl)%nat ->
+  forallb is_space w3 = true -> forallb is_space w4 = true -> opt_u u -> forallb quoted_char v = true ->
+  re_sub (gen_tp2_8 k) (t2 mask)
+    (q1 :: pfx ++ K ++ d ++ q2 :: w1 ++ 44 :: w2 ++ 39 :: 45 :: dash ++ fl ++ 39 :: w3 ++ 44 :: w4 ++ u ++ q3 :: v ++ [q4])
+  = q1 :: pfx ++ K ++ d ++ q2 :: w1 ++ 44 :: w2 ++ 39 :: 45 :: dash ++ fl ++ 39 :: w3 ++ 44 :: w4 ++ u ++ q3 :: mask ++ [q4].
+Proof. exact rendering_masked_cmd1. Qed.
+Print Assumptions C04_rendering_masked_cmd1.
+
 (* non-vacuity: the hypotheses of the rendering theorems instantiated (key password, mixed casing,
    digit suffix, metacharacters and non-ASCII in the value) *)
 Ltac ex_casing := repeat (constructor; [first [left; reflexivity | right; reflexivity]|]); constructor.
@@ -146,6 +170,22 @@ Proof.
   apply (C04_rendering_masked_cmd2 (lit "password") (lit "password") [] eq_refl ltac:(ex_casing) eq_refl
            [32] [45] (lit "flag") [32] (lit "hunter2") [32] (lit "***") eq_refl (or_intror eq_refl) eq_refl
            ltac:(cbn; repeat constructor) eq_refl ltac:(cbn; repeat constructor) eq_refl ltac:(cbn; repeat constructor) eq_refl).
+Qed.
+
+Example C04_rendering_masked_json_prefix_ex :
+  re_sub (gen_tp2_7 (lit "password")) (t2 (lit "***")) (lit "'original_Password2' : u'a b=c'") = lit "'original_Password2' : u'***'".
+Proof.
+  apply (C04_rendering_masked_json_prefix (lit "password") (lit "Password") [50] eq_refl ltac:(ex_casing) eq_refl
+           39 (lit "original_") 39 [32] [32] [117] 39 39 (lit "a b=c") (lit "***")
+           eq_refl eq_refl eq_refl eq_refl eq_refl eq_refl eq_refl (or_intror (or_introl eq_refl)) eq_refl).
+Qed.
+Example C04_rendering_masked_cmd1_ex :
+  re_sub (gen_tp2_8 (lit "password")) (t2 (lit "***")) (lit "'--os-PASSWORD', '--x', u'a b'") = lit "'--os-PASSWORD', '--x', u'***'".
+Proof.
+  apply (C04_rendering_masked_cmd1 (lit "password") (lit "PASSWORD") [] eq_refl ltac:(ex_casing) eq_refl
+           39 (lit "--os-") 39 [] [32] [45] (lit "x") [] [32] [117] 39 39 (lit "a b") (lit "***")
+           eq_refl eq_refl eq_refl eq_refl eq_refl eq_refl eq_refl (or_intror eq_refl) eq_refl ltac:(cbn; repeat constructor)
+           eq_refl eq_refl (or_intror (or_introl eq_refl)) eq_refl).
 Qed.
 
 (* 5. BOUNDED: the WHOLE function (all keys, all twelve substitutions in order) on the finite family
